@@ -155,6 +155,7 @@ func ZZ_C14_Seq() {
 	K := zzrt.Param("K")
 	rb := New[int64](size)
 	var model []int64
+	var held, want [][]int64
 	for s := 0; s < K; s++ {
 		switch zzrt.Choose(4) {
 		case 0:
@@ -183,9 +184,20 @@ func ZZ_C14_Seq() {
 						zzrt.Assert(out[i] == model[i], "seq-popn-prefix-in-order")
 					}
 				}
+				// the consumer keeps the batch while the queue is used further (the inbox invokes the actor with
+				// it while senders push): what came out must stay what came out
+				held = append(held, out)
+				want = append(want, append([]int64(nil), model[:k]...))
 				model = model[k:]
 			}
 		case 3:
+		}
+		for b := range held {
+			for i := range held[b] {
+				if i < len(want[b]) && held[b][i] != want[b][i] {
+					zzrt.Fail("seq-batch-returned-by-PopN-changed-by-a-later-operation")
+				}
+			}
 		}
 		zzrt.Assert(rb.Len() == int64(len(model)), "seq-Len-is-pushes-minus-pops")
 		zzrt.Assert(zzInv(rb), "seq-inv")
